@@ -403,7 +403,9 @@ impl Property for C07 {
         if gv["root"].as_bool() == Some(true) {
             roots.push(RootSel::Step { step: history.len() - 1 });
         }
-        let case = Case { history, roots, ..Default::default() };
+        // (compiled graphs alternate between plain output and output with struct builders)
+        let settings = Settings { struct_builder: gv["compile"].as_bool() == Some(true) && gv["edges"].as_array().map(|e| e.len() % 2 == 1).unwrap_or(false), ..Default::default() };
+        let case = Case { settings, history, roots, ..Default::default() };
         let mut ing = ingest::ingest(&case);
         unit.outcome = ing.outcome.clone();
         unit.message = ing.message.clone();
@@ -495,8 +497,11 @@ impl Property for C07 {
             }
             if let Some(d) = diags.iter().find(|d| d.code == "E0072" || d.code == "E0391") {
                 j.violations.push(Violation::new("rustc-infinite-size", format!("{} {} | {}", d.code, d.message, d.snippet)));
-            } else {
+            } else if let Some(d) = diags.iter().find(|d| d.file == "gen") {
+                // "... have finite size and compile": the graphs use nothing but references between
+                // plain structs / enums / aliases, so any other error is about the recursion as well
                 *j.counters.entry("uncompilable_for_other_reasons".into()).or_default() += 1;
+                j.violations.push(Violation::new("recursive-types-do-not-compile", format!("{} {} | {}", d.code, d.message, d.snippet)));
             }
         }
         if matches!(compile, CompileStatus::Ok) {
